@@ -337,6 +337,27 @@ func runC07(r *core.Run) {
 	}
 	c07History(r, hd)
 	c07FieldEdits(r)
+	// identities whose Ed25519 / RedDSA signing key is a degenerate or NON-CANONICAL point encoding (sign bit set on x = 0,
+	// unreduced y, p itself, all ones, zero): key material is opaque to an identity - whatever bytes were parsed are the
+	// bytes that are hashed
+	for _, sig := range []int{7, 11} {
+		for _, cr := range []int{4, 0} {
+			encs := [][]byte{
+				append(append([]byte{0x01}, make([]byte, 30)...), 0x80),
+				append(append([]byte{0xee}, bytes.Repeat([]byte{0xff}, 30)...), 0x7f),
+				append(append([]byte{0xed}, bytes.Repeat([]byte{0xff}, 30)...), 0x7f),
+				append(append([]byte{0xec}, bytes.Repeat([]byte{0xff}, 30)...), 0xff),
+				bytes.Repeat([]byte{0xff}, 32), make([]byte, 32), append([]byte{0x01}, make([]byte, 31)...),
+			}
+			for i, key := range encs {
+				cl := refmodel.CryptoTable[cr]
+				k := refmodel.NewKAC(sig, cr, false, nil, refmodel.Fill("nc-c", uint64(i), cl), refmodel.Fill("nc-p", uint64(i), 384-cl-32), key)
+				var b refmodel.Buf
+				k.Emit(&b, "id")
+				c07One(r, gen.Signed{Bytes: b.B, Regions: b.R, Value: k}, fmt.Sprintf("signing key encoding #%d (%x...%x), sig %d crypto %d", i, key[0], key[31], sig, cr))
+			}
+		}
+	}
 	r.Sample(map[string]any{"identity": "P-256 / ElGamal, KEY certificate + 5 extra payload bytes", "variants": "every byte ^01 and ^ff"})
 	r.Sample(map[string]any{"paths": []string{"ReadDestination", "NewDestinationFromBytes", "ReadRouterIdentity", "AsDestination", "NewDestination", "NewRouterIdentity", "RouterInfo.IdentHash"}})
 }
